@@ -18,21 +18,23 @@ RULE = ("one case = one schedule: a BucketLeapArray (n in 1..4 buckets, bucket l
 
 EVS = ["pass", "block", "complete", "error", "rt"]
 
-# (name, ops up to and including the thread declarations of the round to enumerate, depth, quick limit, thorough limit)
+# (name, ops up to and including the thread declarations of the round to enumerate, depth bound, quick budget, enumeration limit):
+# the interleavings are always enumerated (up to the limit); the quick tier replays all of them when they fit its budget and a
+# ctx.rng sample of that size otherwise, the thorough tier replays all
 PRE = ["la.new 2 1000 1000", "thread 0 1000 add pass 5", "sched"]
 PRE1 = ["la.new 1 1000 1000", "thread 0 1000 add pass 5", "sched"]
 PRE3 = ["la.new 3 1500 1000", "thread 0 1000 add pass 5 ; add rt 30", "sched"]
 CONFIGS = [
     ("A-add-vs-resetting-add", PRE + ["thread 0 1999 add pass 1", "thread 1 2000 add pass 2"], 40, 200, 200),
     ("B-viewsum-vs-plain-add", PRE + ["thread 0 1999 add pass 1", "thread 1 1999 viewsum pass"], 40, 200, 200),
-    ("C-resetting-add-vs-viewsum", PRE + ["thread 0 2000 add pass 1", "thread 1 2000 viewsum pass"], 40, 0, 20000),
+    ("C-resetting-add-vs-viewsum", PRE + ["thread 0 2000 add pass 1", "thread 1 2000 viewsum pass"], 40, 1500, 20000),
     ("D-n1-resetting-add-vs-viewsum", PRE1 + ["thread 0 2000 add pass 1", "thread 1 2000 viewsum pass"], 40, 500, 500),
-    ("E-n1-resetting-add-vs-count", PRE1 + ["thread 0 2000 add pass 1", "thread 1 2000 count pass"], 18, 0, 30000),
-    ("F-two-ops-vs-add", PRE + ["thread 0 1999 add pass 1 ; viewsum pass", "thread 1 2000 add block 2"], 40, 0, 20000),
+    ("E-n1-resetting-add-vs-count", PRE1 + ["thread 0 2000 add pass 1", "thread 1 2000 count pass"], 18, 300, 30000),
+    ("F-two-ops-vs-add", PRE + ["thread 0 1999 add pass 1 ; viewsum pass", "thread 1 2000 add block 2"], 40, 300, 20000),
     ("G-rt-vs-rt", ["la.new 2 1000 1000", "thread 0 1000 add rt 40", "thread 1 1000 add rt 30"], 40, 100, 100),
     ("H-conc-vs-conc", ["la.new 2 1000 1000", "thread 0 1000 conc 4", "thread 1 1001 conc 7"], 40, 100, 100),
-    ("I-resetting-conc-vs-count", PRE3 + ["thread 0 2500 conc 3", "thread 1 2500 count rt"], 16, 0, 30000),
-    ("J-add-vs-add-same-slot-contention", PRE + ["thread 0 2000 add pass 1", "thread 1 2001 add pass 2"], 14, 0, 30000),
+    ("I-resetting-conc-vs-count", PRE3 + ["thread 0 2500 conc 3", "thread 1 2500 count rt"], 16, 300, 30000),
+    ("J-add-vs-add-same-slot-contention", PRE + ["thread 0 2000 add pass 1", "thread 1 2001 add pass 2"], 14, 300, 30000),
     ("K-plain-add-vs-count", PRE + ["thread 0 1999 add pass 1", "thread 1 1999 count pass"], 40, 300, 300),
     ("L-late-recorder-vs-resetting-add", PRE + ["thread 0 1000 add pass 1", "thread 1 2000 add pass 2"], 40, 200, 200),
 ]
@@ -71,7 +73,25 @@ def rand_sched(rng, k, L):
     return " ".join(out)
 
 
+def gen_known_region(rng, cid):
+    """fixed slice inside the region of stale-counters-visible: a slot being recycled next to a reader of the same event"""
+    n = rng.choice([1, 2, 2, 3])
+    L = rng.choice([1, 10, 500])
+    I = n * L
+    t0 = rng.choice([1, 2, 7]) * I
+    amt = rng.choice([1, 5, 9])
+    t1 = t0 + I + rng.choice([0, 0, 1, L - 1])
+    rd = rng.choice(["viewsum pass", "count pass", "viewsum pass ; viewsum pass"])
+    ops = [f"la.new {n} {I} {t0}", f"thread 0 {t0} add pass {amt}", "sched",
+           f"thread 0 {t1} add pass 1", f"thread 1 {t1} {rd}"]
+    pre = ["0"] * rng.choice([2, 3, 3, 3, 4, 5, 8])
+    ops.append("sched " + " ".join(pre + ["1"] * rng.choice([2, 4, 6, 8, 12])))
+    return Case(cid, ops, tags=(f"n={n}", f"L={L}", "k=2", "known-region"))
+
+
 def gen_case(rng, cid):
+    if rng.random() < 0.04:
+        return gen_known_region(rng, cid)
     n = rng.choice([1, 2, 2, 2, 3, 4])
     L = rng.choice([1, 2, 10, 500, 500])
     I = n * L
@@ -105,7 +125,20 @@ def gen_case(rng, cid):
 
 
 def gen(ctx, n):
-    return [gen_case(ctx.rng, f"g{ctx.seed}-{ctx.cov.get('traces_validated_against_impl', 0)}-{i}") for i in range(n)]
+    cases = [gen_case(ctx.rng, f"g{ctx.seed}-{ctx.cov.get('traces_validated_against_impl', 0)}-{i}") for i in range(n)]
+    d = ctx.cov.setdefault("generator_distribution", {})
+    for c in cases:
+        for t in c.tags:
+            d[t] = d.get(t, 0) + 1
+        for o in c.ops:
+            if o.startswith("thread "):
+                for part in " ".join(o.split()[3:]).split(" ; "):
+                    k = "op:" + part.split()[0]
+                    d[k] = d.get(k, 0) + 1
+            elif o.startswith("sched"):
+                k = "sched-len:" + str(min(64, 1 << max(0, len(o.split()) - 1).bit_length()))
+                d[k] = d.get(k, 0) + 1
+    return cases
 
 
 def corpus():
@@ -161,22 +194,28 @@ def enumerate_configs(ctx):
     """all interleavings of the fixed configurations (depth-first on the Lean model), as cases"""
     text = []
     for name, pre, depth, lq, lt in CONFIGS:
-        lim = lq if ctx.tier == "quick" else lt
-        if lim:
-            text.append(f"case {name}\n" + "\n".join(pre) + f"\nenum {depth} {lim}\n")
+        text.append(f"case {name}\n" + "\n".join(pre) + f"\nenum {depth} {lt}\n")
     out, err = core.run_lean(PROP, "enum", "".join(text))
     if out is None:
         raise RuntimeError(err)
-    cases, info = [], {}
+    cases, info, per = [], {}, collections.defaultdict(list)
     byname = {c[0]: c for c in CONFIGS}
     for l in out:
         if l.startswith("# "):
             _, name, cnt, st = l.split()
-            info[name] = {"schedules": int(cnt), "enumeration": st}
+            info[name] = {"schedules": int(cnt), "enumeration": st + (" up to the depth bound" if byname[name][2] < 40 else "")}
             continue
         name, _, sched = l.partition(" ")
-        pre = byname[name][1]
-        cases.append(Case(f"{name}-{len(cases)}", pre + [sched.strip()] + tail(pre), tags=("enumerated", name)))
+        per[name].append(sched.strip())
+    for name, pre, depth, lq, lt in CONFIGS:
+        ss = per[name]
+        if ctx.tier == "quick" and len(ss) > lq:
+            ss = ctx.rng.sample(ss, lq)
+            info[name]["replayed"] = f"sample of {lq}"
+        else:
+            info[name]["replayed"] = "all"
+        for k, sc in enumerate(ss):
+            cases.append(Case(f"{name}-{k}", pre + [sc] + tail(pre), tags=("enumerated", name)))
     return cases, info
 
 
